@@ -108,6 +108,23 @@ template<int D> void one(Case& c, Prog const& p) {
 	if(!(R.data_elements() == store.data() + G) || !(R.extensions() == exts)) violation("C05:root-rebound", "assignment through a view changed data_elements()/extensions() of the root");
 }
 
+// swap of two views of ONE array that share at most elements mapped onto themselves (row 0 / column 0, row 0 / diagonal, two rows, a row and a
+// column that cross away from the swapped positions' images): well defined element-wise, and nothing else may change
+static void aliased_swap_probe(Case& c) {
+	Rng& g = c.rng; L const n = g.in(2, 4); int const var = int(g.below(5)); static char const* VN[] = {"row0<->col0", "row0<->diagonal", "row i<->row j", "col i<->col j", "row0<->col0 (3-D slice)"};
+	describe(std::string(" + aliased swap ") + VN[var] + " n=" + std::to_string(n)); op("swap(aliased)"); count(std::string("aliased-swap:") + VN[var]); std::string const K = "C05:swap(aliased):";
+	multi::array<T, 2> S({n, n}); std::vector<T> model(std::size_t(n * n)); for(L i = 0; i < n * n; ++i) { S.data_elements()[i] = mkval<T>(3, i); model[std::size_t(i)] = mkval<T>(3, i); }
+	std::vector<std::pair<L, L>> pairs; L i = g.below(n), j = (i + 1 + g.below(n - 1)) % n;
+	switch(var) {
+	case 0: case 4: for(L k = 0; k < n; ++k) pairs.push_back({0 * n + k, k * n + 0}); if(g.chance(1, 2)) swap(S[0], (~S)[0]); else S[0].swap((~S)[0]); break;
+	case 1: for(L k = 0; k < n; ++k) pairs.push_back({0 * n + k, k * n + k}); swap(S[0], S.diagonal()); break;
+	case 2: for(L k = 0; k < n; ++k) pairs.push_back({i * n + k, j * n + k}); swap(S[i], S[j]); break;
+	default: for(L k = 0; k < n; ++k) pairs.push_back({k * n + i, k * n + j}); swap((~S)[i], (~S)[j]); break;
+	}
+	for(auto const& pq : pairs) if(pq.first != pq.second) std::swap(model[std::size_t(pq.first)], model[std::size_t(pq.second)]);
+	for(L q = 0; q < n * n; ++q) if(!(S.data_elements()[q] == model[std::size_t(q)])) { violation(K + VN[var] + ":wrong-value", "after swapping two views of one array, flat element " + std::to_string(q) + " differs from the element-wise swap"); break; }
+}
+
 int main(int argc, char** argv) {
 	// only operations that keep a mutable view type on the pinned tree, and no const value category
 	cfg.kind_mask = (1UL << K_INDEX) | (1UL << K_SLICED) | (1UL << K_STRIDED) | (1UL << K_DROPPED) | (1UL << K_TAKED) | (1UL << K_ROTATED) | (1UL << K_UNROTATED) | (1UL << K_TRANSPOSED) | (1UL << K_DIAGONAL) | (1UL << K_PARTITIONED) | (1UL << K_FLATTED) | (1UL << K_CALL) | (1UL << K_PAREN);
@@ -121,5 +138,6 @@ int main(int argc, char** argv) {
 		Prog p = gen_prog(c.rng, cfg); for(auto& o : p.ops) if(o.cat == 1) o.cat = 0;
 		switch(p.root.size()) { case 1: one<1>(c, p); break; case 2: one<2>(c, p); break; case 3: one<3>(c, p); break; default: one<4>(c, p); break; }
 #endif
+		if(c.k % 6 == 0 && st().case_viol == 0) aliased_swap_probe(c);
 	});
 }
